@@ -45,6 +45,8 @@ def cases(tier, rng):
         out.append(("enum", p))
     for p in enum.boundary_programs():
         out.append(("boundary", p))
+    for p in enum.same_object_programs():
+        out.append(("same-object", p))
     sf = enum.signed_fused_programs()
     for p in sf:
         out.append(("signed-fused", p))
